@@ -29,12 +29,21 @@ struct Node {
     oov: bool,
     cats: u32,
     cat0: u32,
+    /// bit 0: A-unit split list non-empty, bit 1: B-unit split list, bit 2: word structure, bit 3: synonym group ids
+    extra: u32,
+    /// number of tokens Morpheme::split(A) / split(B) yields for this token (1 = not split)
+    split_a: usize,
+    split_b: usize,
 }
 
 fn analyse(dict: &JapaneseDictionary, text: &str) -> Result<Vec<Node>, String> {
+    analyse_mode(dict, text, Mode::C)
+}
+
+fn analyse_mode(dict: &JapaneseDictionary, text: &str, mode: Mode) -> Result<Vec<Node>, String> {
     let r = catch(|| {
         let t = StatelessTokenizer::new(dict);
-        let ms = t.tokenize(text, Mode::C, false).map_err(|e| format!("{:?}", e))?;
+        let ms = t.tokenize(text, mode, false).map_err(|e| format!("{:?}", e))?;
         let mut v = vec![];
         for m in ms.iter() {
             v.push(Node {
@@ -52,6 +61,12 @@ fn analyse(dict: &JapaneseDictionary, text: &str) -> Result<Vec<Node>, String> {
                 oov: m.is_oov(),
                 cats: 0,
                 cat0: 0,
+                extra: {
+                    let wi = m.get_word_info();
+                    (!wi.a_unit_split().is_empty()) as u32 | ((!wi.b_unit_split().is_empty()) as u32) << 1 | ((!wi.word_structure().is_empty()) as u32) << 2 | ((!wi.synonym_group_ids().is_empty()) as u32) << 3
+                },
+                split_a: m.split(Mode::A).map(|l| l.len()).map_err(|e| format!("split(A): {:?}", e))?,
+                split_b: m.split(Mode::B).map(|l| l.len()).map_err(|e| format!("split(B): {:?}", e))?,
             });
         }
         Ok::<_, String>(v)
@@ -112,7 +127,7 @@ fn pos_id(d: &JapaneseDictionary, p: &[&str]) -> u16 {
 }
 
 fn coq_node(n: &Node) -> String {
-    format!("mkN {} {} {} {} {} {} {} {} {} {} {} {}", n.bc, n.ec, n.b, n.b + n.text.len(), ctext(&n.surf), ctext(&n.norm), ctext(&n.dform), ctext(&n.rform), cn(n.pos), cbool(n.oov), cn(n.cats), cn(n.cat0))
+    format!("mkN {} {} {} {} {} {} {} {} {} {} {} {} {}", n.bc, n.ec, n.b, n.b + n.text.len(), ctext(&n.surf), ctext(&n.norm), ctext(&n.dform), ctext(&n.rform), cn(n.extra), cn(n.pos), cbool(n.oov), cn(n.cats), cn(n.cat0))
 }
 
 fn coq_plug(v: &Variant, p: &Plug) -> String {
@@ -161,12 +176,19 @@ fn grouping_oracle(v: &Variant, text: &str, inp: &[Node], out: &[Node]) -> Optio
         let g = &inp[start..k];
         if g.len() == 1 {
             let n = &g[0];
-            let same = n.surf == m.surf && n.norm == m.norm && n.dform == m.dform && n.rform == m.rform && n.pos == m.pos && n.oov == m.oov && n.bc == m.bc && n.ec == m.ec;
-            let renormed = renorm && n.surf == m.surf && n.pos == m.pos && n.pos == v.num_pos;
+            let same = n.surf == m.surf && n.norm == m.norm && n.dform == m.dform && n.rform == m.rform && n.pos == m.pos && n.oov == m.oov && n.bc == m.bc && n.ec == m.ec
+                && n.extra == m.extra && n.split_a == m.split_a && n.split_b == m.split_b;
+            let renormed = renorm && n.surf == m.surf && n.pos == m.pos && n.pos == v.num_pos && m.extra == 0 && m.split_a == 1 && m.split_b == 1;
             if !same && !renormed {
                 return Some(format!("token {:?} is not part of a merge but differs from the analysis without plugins: {:?} vs {:?}", m.text, n, m));
             }
         } else {
+            if m.extra != 0 {
+                return Some(format!("merged token {:?} carries split lists / word structure / synonym group ids (bits {:#x}) of its parts; a token built by a plugin has none", m.text, m.extra));
+            }
+            if m.split_a != 1 || m.split_b != 1 {
+                return Some(format!("merged token {:?} is split again on demand: split(A) gives {} tokens, split(B) {}", m.text, m.split_a, m.split_b));
+            }
             let s: String = g.iter().map(|n| n.surf.as_str()).collect();
             if s != m.surf {
                 return Some(format!("merged token {:?}: dictionary-side surface {:?} is not the concatenation {:?}", m.text, m.surf, s));
@@ -256,6 +278,49 @@ fn run_case(sink: &mut Sink, v: &Variant, text: &str, tag: &str, verbose: bool) 
     if let Some(why) = grouping_oracle(v, text, &inp, &out) {
         sink.fail(id, &format!("{:?} [{}]: {}", text, v.name, why), "");
     }
+    // the same comparison in a split mode: merged tokens must stay merged (they have no split lists), everything else is
+    // split exactly as without the plugins
+    let mode = if (sink.len() + text.len()) % 2 == 0 { Mode::A } else { Mode::B };
+    mode_case(sink, v, text, mode, verbose);
+}
+
+fn mode_name(m: Mode) -> &'static str {
+    match m {
+        Mode::A => "A",
+        Mode::B => "B",
+        Mode::C => "C",
+    }
+}
+
+fn mode_case(sink: &mut Sink, v: &Variant, text: &str, mode: Mode, verbose: bool) {
+    let d = json!({"kind": "rewrite_mode", "variant": v.name, "text": text, "mode": mode_name(mode)});
+    let (mut inp, out) = match (analyse_mode(&v.base, text, mode), analyse_mode(&v.with, text, mode)) {
+        (Ok(a), Ok(b)) => (a, b),
+        (Err(_), Err(_)) => return,
+        (a, b) => {
+            let id = sink.case_rust_only(d, true);
+            sink.fail(id, &format!("{:?} [{}] mode {}: without plugins {:?}, with plugins {:?}", text, v.name, mode_name(mode), a.err(), b.err()), "");
+            return;
+        }
+    };
+    if verbose {
+        println!("mode {} without plugins:", mode_name(mode));
+        for n in &inp {
+            println!("  {:?}", n);
+        }
+        println!("mode {} with plugins:", mode_name(mode));
+        for n in &out {
+            println!("  {:?}", n);
+        }
+    }
+    if !v.input_plugin {
+        fill_cats(v.base.grammar(), text, &mut inp);
+    }
+    sink.tag(&format!("mode:{}", mode_name(mode)));
+    let id = sink.case_rust_only(d, out.len() < inp.len());
+    if let Some(why) = grouping_oracle(v, text, &inp, &out) {
+        sink.fail(id, &format!("{:?} [{}] mode {}: {}", text, v.name, mode_name(mode), why), "");
+    }
 }
 
 /// second lexicon: some numeral characters are NOT numerals (4, 四, 9 are common nouns, 億 too), the separators
@@ -291,6 +356,7 @@ fn compile_alt() -> Vec<u8> {
     }
     assert_eq!(changed, 3, "rows of 4 / 四 / 9 found in tests/resources/lex.csv");
     out.push_str(ALT_ROWS);
+    out.push_str(&attr_rows(46, 47, 52, 53));
     let conn = crate::c15::read_repo("sudachi/tests/resources/matrix_10x10.def");
     let mut b = DictBuilder::new_system();
     b.read_conn(&conn[..]).expect("matrix");
@@ -301,8 +367,23 @@ fn compile_alt() -> Vec<u8> {
     bytes
 }
 
+/// words that carry A/B split lists, word structure and synonym group ids (numerals and katakana words), and katakana
+/// words whose headword (dictionary-side surface) is written differently from their index form.
+/// Word ids: rows 0..45 of lex.csv (二 = 25, 三 = 26), then the appended rows in order.
+fn attr_rows(juu: u32, hyaku: u32, coffee: u32, cup: u32) -> String {
+    format!(
+        "二十,9,9,2000,二十,名詞,数詞,*,*,*,*,ニジュウ,二十,*,C,25/{j},25/{j},25/{j},1/2\n\
+         三百,9,9,2000,三百,名詞,数詞,*,*,*,*,サンビャク,三百,*,C,26/{h},*,26/{h},3\n\
+         コーヒーカップ,7,7,3000,コーヒーカップ,名詞,普通名詞,一般,*,*,*,コーヒーカップ,コーヒーカップ,*,C,{c}/{k},{c}/{k},{c}/{k},4/5\n\
+         テレビ,7,7,3000,ﾃﾚﾋﾞ,名詞,普通名詞,一般,*,*,*,テレビ,テレビ,*,A,*,*,*,6\n\
+         キロ,7,7,3000,㌔,名詞,普通名詞,助数詞可能,*,*,*,キロ,キロ,*,A,*,*,*,*\n\
+         一,9,9,2400,一,名詞,数詞,*,*,*,*,ヒト,一,*,A,*,*,*,7/8\n",
+        j = juu, h = hyaku, c = coffee, k = cup
+    )
+}
+
 fn variants(work: &std::path::Path) -> Vec<Variant> {
-    let mut vs = variants_of(work, "", &compile_system(EXTRA_ROWS), true);
+    let mut vs = variants_of(work, "", &compile_system(&format!("{}{}", EXTRA_ROWS, attr_rows(46, 47, 55, 56))), true);
     vs.extend(variants_of(work, "alt-", &compile_alt(), false));
     vs
 }
@@ -430,8 +511,8 @@ fn termination_probe(sink: &mut Sink, work: &std::path::Path, only: Option<&str>
     }
 }
 
-const PIECES_KATA: [&str; 16] = ["アイ", "アイウ", "コーヒー", "カップ", "アイアイウ", "ラ", "ラーメン", "ァ", "ァイ", "ー", "メ", "ヴ", "ン", "テスト", "ア", "イウ"];
-const PIECES_NUM: [&str; 28] = ["0", "1", "2", "5", "9", "〇", "一", "二", "三", "九", "十", "百", "千", "万", "億", "兆", ",", ".", "12", "1,000", "六三四", "3.14", "4", "四", "42", "49", "1.5", "四十"];
+const PIECES_KATA: [&str; 20] = ["テレビ", "キロ", "コーヒーカップ", "テレビゲーム", "アイ", "アイウ", "コーヒー", "カップ", "アイアイウ", "ラ", "ラーメン", "ァ", "ァイ", "ー", "メ", "ヴ", "ン", "テスト", "ア", "イウ"];
+const PIECES_NUM: [&str; 31] = ["二十", "三百", "二十万", "0", "1", "2", "5", "9", "〇", "一", "二", "三", "九", "十", "百", "千", "万", "億", "兆", ",", ".", "12", "1,000", "六三四", "3.14", "4", "四", "42", "49", "1.5", "四十"];
 const PIECES_OTHER: [&str; 16] = ["に", "た", "京都", "東京都", "行っ", "a", "xyz", " ", "円", "。", "特a", "-", "東", "いく", "な。な", "X"];
 
 fn gen_text(rng: &mut Rng, nfkc: bool) -> (String, &'static str) {
@@ -471,7 +552,8 @@ fn gen_text(rng: &mut Rng, nfkc: bool) -> (String, &'static str) {
     (s, tag)
 }
 
-const DIRECTED: [&str; 36] = [
+const DIRECTED: [&str; 44] = [
+    "二十万円", "三百五円", "二十", "テレビゲームを見る", "キロラ", "コーヒーカップラ", "一万", "テレビ二十キロ",
     "42円", "4.5", "1.5", "1,000円", "四十二", "9万", "49", "3.14京都", "テストメアイ", "1.5テスト", "4億", "2.50,",
     "123円20銭", "080-121", "一二三万二千円", "二百百", "1,000,000円", ",123,", "1.", ".5.", "1,2,3", "アイアイウ", "アイウアイ", "ァイアイ", "ラーメンアイウ",
     "コーヒーカップ", "アイ1アイ", "1アイウ2", "カップ3.50ー", "六三四アイ", "ァァァ", "1,", "に,1", "1.2.3", "京都に123,456.70円アイウラ", "",
@@ -492,6 +574,12 @@ pub fn run(args: &Args) {
         }
         let name = c["variant"].as_str().unwrap();
         let v = vs.iter().find(|v| v.name == name).expect("variant of the replay exists");
+        if c["kind"] == "rewrite_mode" {
+            let mode = match c["mode"].as_str() { Some("A") => Mode::A, Some("B") => Mode::B, _ => Mode::C };
+            mode_case(&mut sink, v, c["text"].as_str().unwrap(), mode, true);
+            sink.finish();
+            return;
+        }
         run_case(&mut sink, v, c["text"].as_str().unwrap(), "replay", true);
         sink.finish();
         return;
